@@ -379,8 +379,21 @@ def produced (s : State) (pw b k : Nat) (P : PW) (B : Batch) (tp : TP) (out : Br
   { s with
     pws := upd s.pws pw (some { P with sender := .attempting b k (some out) }),
     batches := upd s.batches b (some (B.noteProduce out)),
-    log := (if out.applied then upd s.log tp (s.log tp ++ mkEntries pw b B) else s.log),
+    log := upd s.log tp (if out.applied then s.log tp ++ mkEntries pw b B else s.log tp),
     journal := s.journal ++ [{ tp := tp, pw := pw, batch := b, attempt := k, out := out }] }
+
+/-- the logs after a broker decision: the batch is appended to its partition's log iff the attempt was applied
+(the model updates the map with a precomputed value so that the compiled oracle does not re-evaluate old logs) -/
+theorem produced_log (s : State) (pw b k : Nat) (P : PW) (B : Batch) (tp : TP) (out : BrOut) :
+    (produced s pw b k P B tp out).log =
+      if out.applied then upd s.log tp (s.log tp ++ mkEntries pw b B) else s.log := by
+  funext t
+  simp only [produced]
+  cases out.applied
+  · by_cases h : t = tp
+    · subst h; simp
+    · simp [upd_other _ _ _ _ h]
+  · simp
 
 def stepProduce (s : State) (pw : Nat) (tp : TP) (msgs : List Msg) (out : BrOut) : Option State :=
   match s.pws pw with
